@@ -27,6 +27,7 @@ type Result struct {
 	Violation  *Violation
 	Sample     any
 	Key        string // distinctness key (default: the op line)
+	ModelOp    string // if set, the line given to the model instead of the scenario (e.g. scenario + recorded trace)
 }
 
 var streams = map[string]*Stream{}
@@ -101,7 +102,10 @@ func runStream(s *Stream, args []string) int {
 
 	if *c.ops != "" {
 		w, cl := openOut(*c.ops)
-		for _, o := range ops {
+		for i, o := range ops {
+			if results[i].ModelOp != "" {
+				o = results[i].ModelOp
+			}
 			w.WriteString(o)
 			w.WriteByte('\n')
 		}
